@@ -1,5 +1,5 @@
 HOOK_COMMITS = ["ff50c5273", "6b0293f34"]
-FIX_COMMITS = ["307b60a6e", "62d0031d6", "6ce199372", "5fd9938b5", "ad6795210", "c0547804c", "238fc8377", "dacbb5db3", "7596dc66a", "6a30ddb62", "3b9d29682", "e7319ed14", "eedc1e5e3", "7339c48d3", "705404b70", "bcf12043a", "b751d94d2", "4d55ee8fe"]
+FIX_COMMITS = ["307b60a6e", "62d0031d6", "6ce199372", "5fd9938b5", "ad6795210", "c0547804c", "238fc8377", "dacbb5db3", "7596dc66a", "6a30ddb62", "3b9d29682", "e7319ed14", "eedc1e5e3", "7339c48d3", "705404b70", "bcf12043a", "b751d94d2", "4d55ee8fe", "a39809fb4"]
 
 NOTES = ("All checks are deterministic simulations with fault injection (DESIGN.md). Genuine defects found and repaired "
          "are listed in known_findings.json with status 'fixed'; recorded ones with status 'known'.")
